@@ -3,7 +3,8 @@
     Every expression-parsing function satisfies [Via] (ParserViableDefs.v); the
     theorem [pexpr_viable] follows: when [pexpr] fails, the tokens consumed before
     the token named by the diagnostic can be completed to an accepted expression
-    -- unless they contain an assignment to a non-assignable left side. *)
+    -- unless they contain an [=] after a non-assignable left side; then the text
+    before that [=] can be completed and nothing that includes it can. *)
 From Borno Require Import Base Num Token Ast Parser.
 From Borno Require Import ParserEqs ParserMono Grammar ParserSC_Base ParserSound ParserPrefixDefs ParserViableDefs.
 Open Scope nat_scope.
@@ -189,7 +190,8 @@ Proof.
       intros g y [S|Cy]; [same_head S; simpl; rewrite Eq; reflexivity|apply assignK_stop, Cy]. }
   destruct (is_target e) eqn:T.
   - apply Gen. intros a r EX. inv EX. apply Via_weaken.
-    destruct a; try discriminate T.
+    destruct a as [v ln|name line|e0 ln|op e0 ln|op l0 r0 ln|op l0 r0|x nl v ln|a1 a2 v ln|o p v ln|c pl args|a1 a2 ln|a p ln|es|ps];
+      try discriminate T.
     + eapply (Via_cons eofl false true C_e _
                 (fun g x => pbind (pexpr g x) (fun v r2 => POk (EAssign name line v (tline eq)) r2 [])) f eq r1' [idtok]).
       * intros g x. simpl. rewrite Eq. reflexivity.
@@ -210,11 +212,20 @@ Proof.
     destruct V1 as (p1 & Ets & Hne1 & R1).
     assert (EK : forall g x, assignK g e (eq :: x) = pbind (pexpr g x) (fun _ _ => PErr [diag_tok eq PInvalidAssign])).
     { intros g x. simpl. rewrite Eq. destruct e; try discriminate T; reflexivity. }
-    assert (Bad : forall pre3, BadAssign (p1 ++ eq :: pre3)).
-    { intros pre3. destruct (plevel_sound eofl f 0 ts e (eq :: r1') [] (Nat.le_0_l _) E1) as (_ & W & pre & Ets' & Y).
+    assert (LB : LhsBad p1).
+    { destruct (plevel_sound eofl f 0 ts e (eq :: r1') [] (Nat.le_0_l _) E1) as (_ & W & pre & Ets' & Y).
       rewrite Ets in Ets'. apply app_inv_tail in Ets'. subst pre.
-      exists [], p1, eq, pre3, (erase_e e). split; [reflexivity|]. split; [apply tkind_eqb_eq, Eq|].
-      split; [exact W|]. split; [exact Y|]. rewrite is_target_erase. exact T. }
+      exists [], p1, (erase_e e). split; [reflexivity|]. split; [exact W|]. split; [exact Y|].
+      rewrite is_target_erase. exact T. }
+    (* nothing that starts with the left side and the [=] parses cleanly ... *)
+    assert (NCeq : forall rem0, NC (fun g x => pbind (plevel g ladder x) (assignK g)) f p1 (eq :: rem0)).
+    { intros rem0 g rem' Hg S. same_head S. rewrite R1; [|exact Hg|left; reflexivity]. rewrite pb_ret, EK.
+      destruct (pexpr g r2) as [v' r' ds'| ds'|]; simpl; exact I. }
+    (* ... but the left side on its own is an expression *)
+    assert (Vp1 : Viab eofl C_e (fun g x => pbind (plevel g ladder x) (assignK g)) p1).
+    { exists []. split; [constructor|]. intros u Cu.
+      exists f, e. intros g Hg. cbn [app]. rewrite R1; [|exact Hg|right; apply C_e_lv, Cu].
+      rewrite pb_ret. apply assignK_stop, Cu. }
     pose proof (Ie r1') as V2. unfold ParserViableDefs.Via in V2 |- *. cbv beta.
     rewrite E1, pb_ret, EK.
     assert (FDb : forall d, FDv eofl false C_e (fun g => pexpr g) f r1' d ->
@@ -224,15 +235,11 @@ Proof.
       split.
       { intros g rem' Hg S. rewrite <- app_assoc. cbn [app].
         rewrite R1; [|exact Hg|left; reflexivity]. rewrite pb_ret, EK. apply notclean_bind_l, N3; auto. }
-      intros _. right; left. apply Bad. }
+      intros _. left. exists p1, eq, pre3. split; [reflexivity|].
+      split; [left; split; [apply tkind_eqb_eq, Eq|exact LB]|]. split; [apply NCeq|intros _; exact Vp1]. }
     destruct (pexpr f r1') as [v r2 [|d ds]| [|d ds]|] eqn:E2; simpl; auto.
     exists p1, (eq :: r1'). split; [exact Ets|]. split; [reflexivity|].
-    split.
-    { intros g rem' Hg S. same_head S. rewrite R1; [|exact Hg|left; reflexivity]. rewrite pb_ret, EK.
-      destruct (pexpr g r0) as [v' r' ds'| ds'|]; simpl; exact I. }
-    intros _. right; right. exists []. split; [constructor|]. intros u Cu.
-    exists f, e. intros g Hg. cbn [app]. rewrite R1; [|exact Hg|right; apply C_e_lv, Cu].
-    rewrite pb_ret. apply assignK_stop, Cu.
+    split; [apply NCeq|]. intros _. right. exact Vp1.
 Qed.
 
 Lemma viaE_plevel f : ViaE f -> forall lv ts, Via true (C_lv lv) (fun g => plevel g lv) (S f) ts.
@@ -537,41 +544,74 @@ Qed.
 Lemma pexpr_one f ts : one (pexpr f ts).
 Proof. apply (expr_one_all f). Qed.
 
-(** * The expression-level theorem
+(** * The expression-level theorem *)
 
-    When [pexpr] fails, its (only) diagnostic [d] was issued after consuming
-    [pre], looking at the head of [rem] (for [PInvalidAssign]: at the [=]).  Then
-    [pre] is a viable prefix -- some completion [w], all on the end-of-input line,
-    makes [pre ++ w] an accepted expression -- unless [pre] contains an assignment
-    to a left side that is not assignable. *)
+(** [pre] can be completed (by tokens on the end-of-input line) to an accepted expression *)
+Definition expr_viable (pre : list token) : Prop :=
+  exists w, online w /\ exists f' e, pexpr f' (pre ++ w) = POk e [] [].
+(** nothing that starts with [x] is read as an expression *)
+Definition expr_hopeless (x : list token) : Prop :=
+  forall y f' e r, pexpr f' (x ++ y) <> POk e r [].
+
+Lemma NC_never pre rem f : NC (fun g => pexpr g) f pre rem ->
+  forall rem', samehead rem rem' -> forall f' e r, pexpr f' (pre ++ rem') <> POk e r [].
+Proof.
+  intros N rem' S f' e r E.
+  pose proof (pexpr_mono_ok eofl f' (max f f') _ _ _ _ E (Nat.le_max_r _ _)) as E'.
+  specialize (N (max f f') rem' (Nat.le_max_l _ _) S). cbv beta in N. rewrite E' in N. exact N.
+Qed.
+
+Lemma Viab_expr pre : Viab eofl C_e (fun g => pexpr g) pre -> expr_viable pre.
+Proof.
+  intros (w & Ow & Hc). exists w. split; [exact Ow|]. destruct (Hc [] I) as (g0 & e & R). exists g0, e.
+  specialize (R g0 (le_n _)). rewrite app_nil_r in R. exact R.
+Qed.
+
+(** When [pexpr] fails, its (only) diagnostic [d] was issued after consuming
+    [pre], looking at the head of [rem] (for [PInvalidAssign]: at the [=]), and
+    this position is exact: nothing that starts with [pre] and the first token of
+    [rem] is an expression.  Then either [pre] is a viable prefix -- some
+    completion [w], all on the end-of-input line, makes [pre ++ w] an accepted
+    expression -- or the diagnostic is late: [pre] contains an [=] whose left
+    side is complete but not assignable; the text up to that [=] is viable, the
+    text including it is hopeless. *)
 Theorem pexpr_viable f ts ds :
   pexpr f ts = PErr ds ->
   exists d pre rem, ds = [d] /\ ts = pre ++ rem /\ d = diag_at rem (pd_kind d) /\
-    (BadAssign pre \/ exists w, online w /\ exists f' e, pexpr f' (pre ++ w) = POk e [] []).
+    (forall rem', samehead rem rem' -> forall f' e r, pexpr f' (pre ++ rem') <> POk e r []) /\
+    (expr_viable pre \/
+     exists a' eq b, pre = a' ++ eq :: b /\ tk eq = TEQUAL /\ LhsBad a' /\
+                     expr_viable a' /\ expr_hopeless (a' ++ [eq])).
 Proof.
   intros E. pose proof (pexpr_one f ts) as O. rewrite E in O. destruct O as (d & ->).
   destruct (viaE f) as (Ie & _). specialize (Ie ts). unfold ParserViableDefs.Via in Ie. rewrite E in Ie.
-  destruct Ie as (pre & rem & Ets & Ed & H). exists d, pre, rem. split; [reflexivity|]. split; [exact Ets|]. split; [exact Ed|].
+  destruct Ie as (pre & rem & Ets & Ed & N & H). exists d, pre, rem.
+  split; [reflexivity|]. split; [exact Ets|]. split; [exact Ed|]. split; [apply (NC_never _ _ f), N|].
   destruct pre as [|t0 pre'].
-  - right. exists [idtok]. split; [apply online1; reflexivity|]. exists 15, idE. apply id_pexpr; [exact I|apply le_n].
-  - destruct (H ltac:(discriminate)) as [(L & _)|[B|(w & Ow & Hc)]]; [discriminate L|left; exact B|right].
-    exists w. split; [exact Ow|]. destruct (Hc [] I) as (g0 & e & R). exists g0, e.
-    specialize (R g0 (le_n _)). rewrite app_nil_r in R. exact R.
+  - left. exists [idtok]. split; [apply online1; reflexivity|]. exists 15, idE. apply id_pexpr; [exact I|apply le_n].
+  - destruct (H ltac:(discriminate)) as [(a' & eq & b & Ep & K & Na & Va)|V]; [right|left; apply Viab_expr, V].
+    destruct K as [(K & LB)|(L & _)]; [|discriminate L].
+    exists a', eq, b. split; [exact Ep|]. split; [exact K|]. split; [exact LB|]. split.
+    { destruct a' as [|t1 a1]; [|apply Viab_expr, Va; discriminate].
+      exists [idtok]. split; [apply online1; reflexivity|]. exists 15, idE. apply id_pexpr; [exact I|apply le_n]. }
+    intros y f' e r. rewrite <- app_assoc. apply (NC_never _ _ f Na). reflexivity.
 Qed.
 
-(** the same for a run that ends with its first token: nothing was consumed *)
+(** the same, split according to whether the diagnostic names a token *)
 Corollary pexpr_viable_token f ts ds :
   pexpr f ts = PErr ds ->
   exists d, ds = [d] /\
-    ((exists pre, ts = pre /\ pd_where d = None /\
-        (BadAssign pre \/ exists w, online w /\ exists f' e, pexpr f' (pre ++ w) = POk e [] [])) \/
-     (exists pre t w0, ts = pre ++ t :: w0 /\ d = diag_tok t (pd_kind d) /\
-        (BadAssign pre \/ exists w, online w /\ exists f' e, pexpr f' (pre ++ w) = POk e [] []))).
+    let ok pre := expr_viable pre \/
+                  exists a' eq b, pre = a' ++ eq :: b /\ tk eq = TEQUAL /\ LhsBad a' /\
+                                  expr_viable a' /\ expr_hopeless (a' ++ [eq]) in
+    (pd_where d = None /\ ok ts) \/
+    (exists pre t w0, ts = pre ++ t :: w0 /\ d = diag_tok t (pd_kind d) /\ expr_hopeless (pre ++ [t]) /\ ok pre).
 Proof.
-  intros E. destruct (pexpr_viable f ts ds E) as (d & pre & rem & -> & -> & Ed & H). exists d. split; [reflexivity|].
-  destruct rem as [|t w0].
-  - left. exists pre. rewrite app_nil_r. split; [reflexivity|]. split; [rewrite Ed; reflexivity|exact H].
-  - right. exists pre, t, w0. split; [reflexivity|]. split; [exact Ed|exact H].
+  intros E. destruct (pexpr_viable f ts ds E) as (d & pre & rem & -> & -> & Ed & N & H). exists d. split; [reflexivity|].
+  cbv zeta. destruct rem as [|t w0].
+  - left. rewrite app_nil_r. split; [rewrite Ed; reflexivity|exact H].
+  - right. exists pre, t, w0. split; [reflexivity|]. split; [exact Ed|]. split; [|exact H].
+    intros y f' e r. rewrite <- app_assoc. apply N. reflexivity.
 Qed.
 
 End Viable.
@@ -612,10 +652,10 @@ Proof. eexists. vm_compute. reflexivity. Qed.
     [( f ) = +] fails at [+], and nothing that starts with [( f ) =] is accepted *)
 Example vx_fails4 : pexpr 1%N 100 ([vx_lp; vx_id; vx_rp; vx_eq] ++ [vx_plus]) = PErr [diag_tok vx_plus PExpectExpr].
 Proof. vm_compute. reflexivity. Qed.
-Example vx_bad4 : BadAssign [vx_lp; vx_id; vx_rp; vx_eq].
+Example vx_bad4 : LhsBad [vx_lp; vx_id; vx_rp].
 Proof.
-  exists [], [vx_lp; vx_id; vx_rp], vx_eq, [], (EGroup (EId [102%N] 0%N) 0%N).
-  split; [reflexivity|]. split; [reflexivity|]. split; [constructor; apply WF_level; constructor|].
+  exists [], [vx_lp; vx_id; vx_rp], (EGroup (EId [102%N] 0%N) 0%N).
+  split; [reflexivity|]. split; [constructor; apply WF_level; constructor|].
   split; [|reflexivity]. apply (Y_group (EId [102%N] 0%N) 0%N [SymId [102%N]]). constructor.
 Qed.
 
